@@ -56,7 +56,7 @@ func C06(c *core.Ctx) {
 	ruleDedup(c)
 	runCompositions(c, rules, "Length", "pattern")
 	// the checks of a declaration are its own schema's, also when another file of the run defines a same-named, same-shaped definition
-	ruleMultiSel(c, ruleSet("A-REJ", "A-NOEXTRA"), 3, "differing only in minLength", "differing only in maxLength", "differing only in pattern")
+	ruleMultiSel(c, ruleSet("A-REJ", "A-NOEXTRA"), 3, "differing only in minLength", "differing only in maxLength", "differing only in pattern", "three files with their own minLength")
 	// which declaration a same-named schema is bound to decides which constraints validate it (A-DEDUP)
 	ruleDedup(c)
 	c.Floor("families", c.Counts["members"], 48, "family members")
